@@ -37,9 +37,12 @@ class Call(Expression):
 
         _ParseFunction = Code('_ParseFunction')
 
-        if flags.uses_context and not self.func.is_local:
+        is_super = self.func.name.startswith('super.')
+        if flags.uses_context and not self.func.is_local and not is_super:
             resolved_func = f'_ctx.{self.func.resolved}'
         else:
+            # 'super.R(...)' is the parent of the grammar that contains the call,
+            # not of the grammar through which the parse was started.
             resolved_func = self.func.resolved
 
         func = _ParseFunction(Code(resolved_func), tuple(args), tuple(kwargs))
